@@ -400,6 +400,10 @@ func (w *WAL) ReadAll() (metadata []byte, state raftpb.HardState, ents []raftpb.
 		case snapshotType:
 			var snap walpb.Snapshot
 			pbutil.MustUnmarshal(&snap, rec.Data)
+			// the same as SaveSnapshot: the last index follows a snapshot ahead of the log
+			if w.enti < snap.Index {
+				w.enti = snap.Index
+			}
 			if snap.Index == w.start.Index {
 				if snap.Term != w.start.Term {
 					state.Reset()
